@@ -447,10 +447,35 @@ def _indent_balance(fn: Function, rep: Report) -> None:
             # a writer created in this function: its final depth is irrelevant (the code is returned), but it must never go negative
             pass
 
-        def transfer(node, v, label, w=w):
+        # flags: plain local names tested bare (`if opens_try:` ... `if opens_try:`) - the state remembers which way a flag was taken, so that
+        # the indent under the first test and the dedent under the second one are seen as the same case
+        assigned_in_loop_or_twice = {t.id for st in own_nodes(fn.node) if isinstance(st, (ast.Assign, ast.AnnAssign, ast.AugAssign))
+                                     for t in (st.targets if isinstance(st, ast.Assign) else [st.target]) if isinstance(t, ast.Name)}
+
+        def transfer(node, state, label, w=w):
+            v, flags = state if isinstance(state, tuple) else (state, frozenset())
             a = node.ast
+            if node.kind == "test" and a is not None and label in ("true", "false"):
+                t, sense = a, label == "true"
+                while isinstance(t, ast.UnaryOp) and isinstance(t.op, ast.Not):
+                    t, sense = t.operand, not sense
+                if isinstance(t, ast.Name):
+                    known = dict(flags)
+                    if t.id in known and known[t.id] != sense:
+                        return ()  # contradicts the way this flag was taken before
+                    known[t.id] = sense
+                    return ((v, frozenset(known.items())),)
+                return ((v, flags),)
             if node.kind != "stmt" or a is None:
-                return (v,)
+                return ((v, flags),)
+            if isinstance(a, (ast.Assign, ast.AnnAssign, ast.AugAssign)):
+                tg = a.targets if isinstance(a, ast.Assign) else [a.target]
+                names = {x.id for t in tg for x in ast.walk(t) if isinstance(x, ast.Name)}
+                if names:
+                    flags = frozenset((k, b) for k, b in flags if k not in names)
+            if isinstance(a, (ast.For, ast.AsyncFor)):
+                names = {x.id for x in ast.walk(a.target) if isinstance(x, ast.Name)}
+                flags = frozenset((k, b) for k, b in flags if k not in names)
             d = v
             for c in calls_in(a):
                 if isinstance(c.func, ast.Attribute) and not c.args and norm(c.func.value) == w:
@@ -460,9 +485,10 @@ def _indent_balance(fn: Function, rep: Report) -> None:
                         d -= 1
                 elif isinstance(c.func, ast.Attribute) and c.func.attr in NET_EFFECT and any(norm(x) == w for x in list(c.args) + [k.value for k in c.keywords]):
                     d += NET_EFFECT[c.func.attr]  # callee summary: leaves the shared writer at +n
-            return (max(-4, min(8, d)),)
+            return ((max(-4, min(8, d)), flags),)
 
-        states, _ = forward(cfg, 0, transfer)
+        states_f, _ = forward(cfg, (0, frozenset()), transfer)
+        states = {k: {(x[0] if isinstance(x, tuple) else x) for x in vs} for k, vs in states_f.items()}
         at_exit = sorted(states[cfg.exit])
         sub = f"{fn.module.relpath}:{fn.qualname} indent balance of `{w}`"
         expected = {0}
